@@ -110,6 +110,10 @@ static void drv_step(struct cmd *c)
 			simple(c, "failed");
 			return;
 		}
+		{
+			int sb = (int) drv_int(c, "sndbuf", 0);
+			if (sb > 0) setsockopt(wpair[0], SOL_SOCKET, SO_SNDBUF, &sb, sizeof(sb));
+		}
 		_mpt_stream_setfile(&ws._info, -1, wpair[0]);
 		mpt_stream_setmode(&ws, MPT_STREAMFLAG(WriteBuf));
 		_mpt_stream_setfile(&rs._info, rpair[1], -1);
@@ -163,14 +167,24 @@ static void drv_step(struct cmd *c)
 	else if (!strcmp(a, "flush")) {
 		size_t before = wire_len;
 		const char *via = drv_raw(c, "via");
-		int r, rounds = 0;
+		int r, rounds = 0, hold = (int) drv_int(c, "hold", 0);
+		/* a peer that is not reading: the socket buffer fills up, further flushes
+		 * write partially or not at all (EAGAIN) before the relay drains */
+		while (hold-- > 0) {
+			mpt_stream_flush(&ws);
+		}
 		/* flush until nothing finished is left, relay reads what arrived */
 		do {
 			ssize_t got_n;
 			uint8_t tmp[4096];
 			if (via && !strcmp(via, "poll")) { mpt_stream_poll(&ws, POLLOUT, -1); r = 0; }
 			else if (via && !strcmp(via, "poll0")) { mpt_stream_poll(&ws, POLLOUT, 0); r = 0; }
-			else r = mpt_stream_flush(&ws);
+			else {
+				errno = 0;
+				r = mpt_stream_flush(&ws);
+				/* a full socket is no failure: the relay drains and the flush is repeated */
+				if (r < 0 && (errno == EAGAIN || errno == EWOULDBLOCK)) r = 0;
+			}
 			while ((got_n = read(wpair[1], tmp, sizeof(tmp))) > 0) {
 				if (wire_len + got_n > wire_cap) wire = (uint8_t *) realloc(wire, wire_cap = (wire_len + got_n) * 2 + 64);
 				memcpy(wire + wire_len, tmp, got_n);
